@@ -826,3 +826,7 @@ Lemma S_erase_loop N s k : SInv cmp N s ->
   ss_elems s' = filter (keep k) (ss_elems s) /\ iters = ss_size s /\ erased + length (ss_elems s') = ss_size s /\ SInv cmp N s'.
 Proof. use erase_loop_terminates. Qed.
 End Statements.
+
+Lemma set_relocate_step cmp kind p a b s : sget p a = Some s -> sget p b = None -> a <> b ->
+  sstep cmp kind p (SRelocate a b) = (sput (sput p b (Some s)) a None, SROk).
+Proof. intros Ha Hb Hab. unfold sstep. apply Nat.eqb_neq in Hab. rewrite Hab, Ha, Hb. reflexivity. Qed.
